@@ -1,7 +1,7 @@
 """C02 - Bounding boxes contain everything that is drawn  (metadata + implementation-side search; Coq parts in Properties/C02_*.v)"""
 from common import *
 
-CLAIMED = True
+CLAIMED = False  # until theorem parts are merged
 LEVEL = 'proof'
 LEVEL_TEXT = 'TODO'
 LEVEL_NOTE = 'TODO'
